@@ -590,7 +590,19 @@ func isRecvMap(f *ssa.Function, m ssa.Value) bool {
 		return false
 	}
 	fa, ok := u.X.(*ssa.FieldAddr)
-	return ok && isRecv(f, fa.X)
+	if !ok {
+		return false
+	}
+	// the map may sit in a struct nested in the receiver (c.subs.byPeer)
+	base := fa.X
+	for {
+		inner, ok := base.(*ssa.FieldAddr)
+		if !ok {
+			break
+		}
+		base = inner.X
+	}
+	return isRecv(f, base)
 }
 
 // isRecv: v is the receiver parameter of f, directly or reloaded from the cell it was
